@@ -293,6 +293,9 @@ func main() {
 			mu.Lock()
 			pairStats["ordered_pairs"] += int64(len(pops))
 			pairStats["function_executions"] += calls
+			// every (pair, slot) is a distinct case by construction (distinct operand tuples per instruction)
+			distinct += calls / 2
+			nontriv += calls / 2
 			formsSeen["pair"] += 2 * calls
 			mu.Unlock()
 		})
@@ -416,7 +419,7 @@ func main() {
 	}
 	run.Finish(fw.Coverage{
 		Evaluations: evals, DistinctNontriv: nontriv,
-		Rule:    "one evaluation = one execution of one instruction (scalar or whole vector) with one operand tuple in one operand form on one engine, compared with refsem; distinct = distinct (instruction, operand tuple) pairs measured by hashing every enumerated tuple, non-trivial = at least one operand non-zero",
+		Rule:    "one evaluation = one execution of one instruction (scalar or whole vector) with one operand tuple in one operand form on one engine, compared with refsem; distinct = distinct (instruction, operand tuple) pairs measured by hashing every enumerated tuple, non-trivial = at least one operand non-zero; pair family: one function execution yields two evaluations, and each (ordered instruction pair, operand slot) counts as one distinct case",
 		Samples: samples.List(), Exhaustive: true, Outcomes: om, Bounds: bounds,
 		Extra: map[string]any{
 			"lane_results_compared":   st.lanes.Load(),
@@ -435,6 +438,7 @@ func main() {
 		"NaN results of arithmetic operators are accepted within the class the specification allows (canonical when all NaN inputs are canonical, else arithmetic); abs/neg/copysign/reinterpret/select/move/load/store/lane moves/pmin/pmax are compared bit-exactly",
 		"32/64-bit operands come from boundary alphabets (all pairs), not from the full domain; 8-bit lanes are exhaustive, 16-bit lanes exhaustive for unary and grid all-pairs for binary operators",
 		"memory instructions (v128.loadNxM, load_splat, load_lane, store_lane) are not numeric instructions and are left to C02/C01; plain loads/stores are exercised as operand sources and result sinks",
+		"pair family: per-function compiler state shared by TWO numeric instructions is covered for every ordered pair of 355 instruction representatives; state shared only among three or more instructions, or across functions of a module in a way that needs a particular function order, is not",
 		"amd64 only (the machine this runs on); the arm64 backend is not exercised",
 	})
 }
